@@ -47,6 +47,13 @@ static void observe(parsec_data_collection_t *C, parsec_tiled_matrix_t *T, int r
     VASSERTM(C->rank_of_key(C, key) == o->owner, "rank_of_key(data_key(m,n)) == rank_of(m,n)");
     { int km = -1, kn = -1; parsec_matrix_block_cyclic_key2coords(C, key, &km, &kn);
       VASSERTM(km == m && kn == n, "key -> coordinates -> key is the identity"); }
+#if VIEW && C_I == 0 && C_J == 0
+    /* the view emulates the kp x kq-cyclic distribution: inside complete super-tiles the owner is the k-cyclic one */
+    if (m - m % (C_P * C_KP) + C_P * C_KP <= T->mt && n - n % (C_Q * C_KQ) + C_Q * C_KQ <= T->nt) {
+        unsigned er = (((unsigned)m / C_KP) % C_P + C_IP) % C_P, ec = (((unsigned)n / C_KQ) % C_Q + C_JQ) % C_Q;
+        VASSERTM(o->owner == er * C_Q + ec, "k-cyclic view: a tile inside a complete super-tile is owned by the kp x kq-cyclic owner");
+    }
+#endif
     VASSUME((int)o->owner == r);                 /* from here on: the owner's view */
     int vp = C->vpid_of(C, m, n);
     VASSERTM(vp >= 0 && vp < NBVP, "vpid_of is a valid virtual process");
@@ -81,6 +88,7 @@ static void observe(parsec_data_collection_t *C, parsec_tiled_matrix_t *T, int r
     } else {
         long e = o->off / ESZ, row0 = e % T->llm, col0 = e / T->llm;
         VASSERTM(o->off >= 0 && o->off % ESZ == 0 && row0 + C_MB <= T->llm && col0 + C_NB <= T->lln, "tile rectangle inside the local llm x lln storage");
+        VASSERTM(row0 % C_MB == 0 && col0 % C_NB == 0, "LAPACK storage: the tile starts on the mb x nb grid of the local storage (leading dimension llm)");
     }
 }
 
